@@ -16,7 +16,7 @@ from typing import Callable, Dict, Iterable, Iterator, List, Set
 # documented switches of the framework / of this harness that are allowed to matter (none of them touches a listed property)
 KNOWN = {"SEMANTIVA_DOCSTRING_MAX_CHARS", "SEMANTIVA_VERIF"}
 PREFIXES = ("SEMANTIVA", "SVA_")
-VALUES = ["1", "2", "4", "true"]
+VALUES = ["1", "2", "4", "true", "0", "warn", "ignore", "off"]
 
 
 @contextlib.contextmanager
